@@ -6,11 +6,21 @@ set -u
 PID=$1; K=$2
 SRC=/tmp/mut/$PID/out/$K
 WT=/tmp/seedchk/wt_${PID}_$K
-BASE=${BASE:-38b246d}
+mkdir -p /tmp/seedchk
+# base commit: the first of the known /repo states the patch applies to
+BASE=""
+for b in 38b246d 900fe01 47ba31a fac8f5b HEAD; do
+  if git -C /repo worktree add -q --detach /tmp/seedchk/probe_$$ $b 2>/dev/null; then
+    if git -C /tmp/seedchk/probe_$$ apply --check $SRC/patch.diff 2>/dev/null; then BASE=$b; fi
+    git -C /repo worktree remove --force /tmp/seedchk/probe_$$
+    [ -n "$BASE" ] && break
+  fi
+done
+[ -z "$BASE" ] && BASE=HEAD
 export CARGO_TARGET_DIR=/tmp/seedchk/target CARGO_NET_OFFLINE=true
 mkdir -p /tmp/seedchk
 RES=/tmp/seedchk/${PID}_$K.result
-: > $RES
+echo "base=$BASE" > $RES
 git -C /repo worktree remove --force $WT 2>/dev/null
 git -C /repo worktree add -q --detach $WT $BASE || { echo "worktree failed" >> $RES; exit 2; }
 cd $WT
